@@ -64,6 +64,9 @@ def solve_lp_interior(
 
     m, n = len(b), len(c)
     if m == 0 or n == 0:
+        if any(bi < 0 for bi in b):
+            # without variables the left-hand sides are 0: a negative right-hand side cannot be met
+            return Result(tuple([0.0] * n), float("inf"), 0, 0, Status.INFEASIBLE)
         return Result(tuple([0.0] * n), 0.0, 0, 0, Status.OPTIMAL)
 
     # Flip objective for maximization
